@@ -338,12 +338,9 @@ impl Function {
             | Function::Md5
             | Function::CastAsText
             | Function::CastAsFloat
-            | Function::CastAsInteger
-            | Function::CastAsBoolean
             | Function::CastAsDateTime
-            | Function::CastAsDate
-            | Function::CastAsTime
             | Function::Unhex => true,
+            // casts that truncate (float -> integer, number -> boolean, date time -> date or time) are not one-to-one
             _ => false,
         }
     }
